@@ -148,7 +148,10 @@ def parse(buf, strict=True):
     incomplete block and returns what was complete (used to learn the block
     boundaries of truncated files)."""
     buf = bytes(buf)
-    c = parse_header(buf)
+    try:
+        c = parse_header(buf)
+    except (UnicodeDecodeError, IndexError, OverflowError, MemoryError, json.JSONDecodeError) as e:
+        raise ContainerError("header: %s" % type(e).__name__)
     pos = c.header_len
     while pos < len(buf):
         off = pos
